@@ -1,7 +1,7 @@
 """C01 — commit is atomic and durable across a crash: the write-ahead / durability protocol,
 decided on every path of the functions that issue storage operations."""
 from ..model import Ev, must_pass, must_precede, ok_continuation_events, witness_path, path_spans, provenance
-from ..rules import (rule_precede, rule_must_pass, rule_result_checked, rule_who_may_call, get_body,
+from ..rules import (must_closure, rule_between, rule_precede, rule_must_pass, rule_result_checked, rule_who_may_call, get_body,
                      family, calls_to, site, short, arg_provenance, fmt_leaves)
 from .. import linear, durable
 
@@ -138,7 +138,55 @@ def r6(rep, prog):
 
 
 def r4(rep, prog):
-    pass
+    R = "C01-R4"
+    I = "tantivy::indexer::"
+    CLOSE = {I + "segment_serializer::SegmentSerializer::close"}
+    M = must_closure(prog, CLOSE)
+    for need in (I + "segment_writer::SegmentWriter::finalize", I + "segment_writer::SegmentWriter::finalize_inner",
+                 I + "segment_writer::remap_and_write", I + "merger::IndexMerger::write"):
+        rep.check(need in M, R, "%s must-passes SegmentSerializer::close" % short(need),
+                  "every Ok exit is preceded (through wrappers) by the Ok-continuation of SegmentSerializer::close",
+                  "`%s` can return Ok without the segment's files having been closed (SegmentSerializer::close not on every Ok path)" % need,
+                  site=(prog.body(need).span if prog.body(need) else ""))
+    # (a) a freshly written segment is handed to the updater only after finalize succeeded
+    rule_precede(rep, prog, R, I + "index_writer::index_documents", M & {I + "segment_writer::SegmentWriter::finalize"},
+                 {SU + "SegmentUpdater::schedule_add_segment"}, "SegmentWriter::finalize", "schedule_add_segment")
+    # (b) a merged segment entry exists only after the merger wrote and closed everything
+    rule_precede(rep, prog, R, SU + "merge", M & {I + "merger::IndexMerger::write"},
+                 {I + "segment_entry::SegmentEntry::new"}, "IndexMerger::write", "SegmentEntry::new")
+    # (c) a delete file is referenced (set_meta) only after it was terminated
+    TW = "tantivy_common::writer::TerminatingWrite::"
+    rule_between(rep, prog, R, I + "index_writer::advance_deletes", {"tantivy::index::segment::Segment::with_delete_meta"},
+                 family(prog, TW + "terminate"), {I + "segment_entry::SegmentEntry::set_meta"},
+                 "Segment::with_delete_meta", "terminate() of the .del file", "SegmentEntry::set_meta")
+    rule_precede(rep, prog, R, I + "index_writer::advance_deletes", {"tantivy::fastfield::alive_bitset::write_alive_bitset"},
+                 family(prog, TW + "terminate"), "write_alive_bitset", "terminate()")
+    # (d) the temp store is complete before it is read back
+    rule_precede(rep, prog, R, I + "segment_writer::remap_and_write", {"tantivy::store::writer::StoreWriter::close"},
+                 {"tantivy::store::reader::StoreReader::open"}, "old_store_writer.close()", "StoreReader::open(TempStore)")
+    # field norms are read back only after their serializer was closed by FieldNormsWriter::serialize
+    FNS = must_closure(prog, {"tantivy::fieldnorm::serializer::FieldNormsSerializer::close"})
+    rep.check("tantivy::fieldnorm::writer::FieldNormsWriter::serialize" in FNS, R, "FieldNormsWriter::serialize must-passes FieldNormsSerializer::close",
+              "closes the fieldnorm file on every Ok path", "FieldNormsWriter::serialize can return Ok without closing the fieldnorm file")
+    # (e) commit task: purge_deletes < SegmentManager::commit < save_metas < GC ; Ok exit only after save_metas
+    fid = SU + "SegmentUpdater::schedule_commit::{closure#0}"
+    PURGE = {SU + "SegmentUpdater::purge_deletes"}
+    COMMIT = {I + "segment_manager::SegmentManager::commit"}
+    SAVE = {SU + "SegmentUpdater::save_metas"}
+    GC = {SU + "garbage_collect_files"}
+    rule_precede(rep, prog, R, fid, PURGE, COMMIT, "purge_deletes", "SegmentManager::commit")
+    rule_precede(rep, prog, R, fid, COMMIT, SAVE, "SegmentManager::commit", "SegmentUpdater::save_metas", a_ok=False)
+    rule_precede(rep, prog, R, fid, SAVE, GC, "SegmentUpdater::save_metas", "garbage_collect_files")
+    rule_must_pass(rep, prog, R, fid, SAVE, "SegmentUpdater::save_metas", a_ok=True)
+    # end-merge task: GC only after the swap; on the committed branch after save_metas
+    fid = SU + "SegmentUpdater::end_merge::{closure#1}"
+    ENDM = {I + "segment_manager::SegmentManager::end_merge"}
+    rule_precede(rep, prog, R, fid, ENDM, GC, "SegmentManager::end_merge", "garbage_collect_files")
+    rule_precede(rep, prog, R, fid, ENDM, SAVE, "SegmentManager::end_merge", "SegmentUpdater::save_metas")
+    rule_between(rep, prog, R, fid, SAVE, SAVE, GC, "call of save_metas", "save_metas", "garbage_collect_files")
+    # SegmentUpdater::save_metas: in-memory active meta only after the file write succeeded
+    rule_precede(rep, prog, R, SU + "SegmentUpdater::save_metas", {SU + "save_metas"}, {SU + "SegmentUpdater::store_meta"},
+                 "save_metas (file)", "store_meta (memory)")
 
 
 def r7(rep, prog):
